@@ -7,7 +7,7 @@ After EVERY op every live application is compared with its model routing table.
 """
 from clastic import Application, Route, SubApplication, Middleware, Response
 
-from sim.core.base import Check, RunResult, Streams, InvalidPlan, canon
+from sim.core.base import Check, RunResult, Streams, InvalidPlan, HarnessError, canon
 from sim.core.gateway import make_environ, call_app
 from sim.worlds import routing as R
 
@@ -15,7 +15,56 @@ EXAMPLE = {'/a': ['/a'], '/a/': ['/a/', '/a'], '/a/b': ['/a/b'], '/<x>': ['/q'],
            '/<x>/<y>': ['/q/r'], '/a/<rest+>': ['/a/b/c'], '/<rest*>': ['/', '/z/z/z'], '/b/<x?>': ['/b', '/b/q'],
            '/c/<n:int>/': ['/c/5/']}
 FAIL_KINDS = ['unresolved', 'badpattern', 'badpattern2', 'dupbinding', 'conflict-url-res', 'badmw', 'notaroute',
-              'badtuple', 'sub-kth-fails', 'sub-kth-fails', 'sub-mw-dup', 'route-reserved-resource']
+              'badtuple', 'bind-raises', 'sub-kth-fails', 'sub-kth-fails', 'sub-mw-dup', 'route-reserved-resource',
+              'sub-kth-cycle', 'sub-kth-raises']
+N_CTOR_KINDS = 9
+
+
+class SimBindError(LookupError):
+    pass
+
+
+BIND_EXCS = [RuntimeError, OSError, KeyError, SimBindError, AssertionError, ValueError]
+NEW_SUB_KINDS = ('sub-kth-cycle', 'sub-kth-raises')
+
+
+class ExplodingRoute(Route):
+    """A route type of the application's own whose binding fails -- with whatever exception its author chose."""
+    exc_type = RuntimeError
+
+    def bind(self, app, **kwargs):
+        raise self.exc_type('this route cannot be bound into %r' % type(app).__name__)
+
+
+class CycX(Middleware):
+    """application level: provides cx and would like cy.  Alone it is fine; together with CycY (which provides cy and
+    would like cx) clastic's dependency resolver reports a cycle (RuntimeError) when the route is bound."""
+    provides = ('cx',)
+
+    def request(self, next, cy=None):
+        return next(cx='cx')
+
+
+class CycY(Middleware):
+    endpoint_provides = ('cy',)
+
+    def endpoint(self, next, cx=None):
+        return next(cy='cy')
+
+
+class StampMW(Middleware):
+    """application-level middleware configured per application: marks every response that passes through it."""
+
+    def __init__(self, stamp):
+        self.stamp = stamp
+
+    def request(self, next):
+        resp = next()
+        try:
+            resp.headers['X-Stamp'] = ','.join([x for x in [resp.headers.get('X-Stamp')] if x] + [self.stamp])
+        except Exception:
+            pass
+        return resp
 
 
 class NoNext(Middleware):
@@ -69,7 +118,8 @@ class Pool(object):
         return {'pattern': e.get('key', e['pattern']), 'actual': prefix + e['pattern'], 'prefix': prefix, 'mode': self.mode[i],
                 'methods': e['methods'], 'out': e['out'], 'tag': e['tag'],
                 'res': sorted(set(self.res[i]) | set(e.get('route_res', []))), 'nr': bool(self.cfg['apps'][i].get('nr_mw')),
-                'render': ('F%d' % i) if (e['out'] == 'ctx' and self.cfg['apps'][i].get('factory')) else None, 'chain': [i]}
+                'render': ('F%d' % i) if (e['out'] == 'ctx' and self.cfg['apps'][i].get('factory')) else None, 'chain': [i],
+                'stamp': ('S%d' % i) if self.cfg['apps'][i].get('stamp') else None}
 
     def embedded_entry(self, entry, i, prefix, rebind=False):
         """Model entry of an already bound entry re-bound into application i under prefix.
@@ -81,7 +131,9 @@ class Pool(object):
             withf = [a for a in chain if self.cfg['apps'][a].get('factory')]
             if withf:
                 render = 'F%d' % withf[-1]
-        return dict(entry, actual=prefix + entry['actual'], prefix=prefix + entry['prefix'], mode=self.mode[i], render=render, chain=chain,
+        # StampMW is a unique type: of the parent's and the child's instance the OUTER one (the parent's) is kept
+        stamp = ('S%d' % i) if self.cfg['apps'][i].get('stamp') else entry.get('stamp')
+        return dict(entry, actual=prefix + entry['actual'], prefix=prefix + entry['prefix'], mode=self.mode[i], render=render, chain=chain, stamp=stamp,
                     res=sorted(set(self.res[i]) | set(entry['res'])), nr=entry['nr'] or bool(self.cfg['apps'][i].get('nr_mw')))
 
 
@@ -94,7 +146,7 @@ class C11(Check):
     shrink_lists = (('ops',),)
     rule = ('histories (<= 24 ops quick, <= 64 thorough) over a pool of <= 4 applications and <= 8 Route objects: construct '
             'application (possibly with a failing k-th entry), add route / tuple / SubApplication / (prefix, app) at an index, '
-            'add an entry that FAILS (12 kinds incl. an embedded application whose k-th route cannot be re-bound), bind one Route '
+            'add an entry that FAILS (15 kinds incl. dependency cycles with the parent, application-defined route types whose bind raises any exception type, an embedded application whose k-th route cannot be re-bound), bind one Route '
             'into several applications, request. After every op every live application is compared with its model routing table '
             '(patterns) and probed with requests derived from the model (status, answering route, visible resources). '
             'Non-trivial: history with a failed op or an embedding; distinct = (op kind, failure kind, k, #live apps, table sizes).')
@@ -106,7 +158,8 @@ class C11(Check):
     level_text = ('Every failure kind x position k of a multi-route operation is exercised across seeds (the per-operation '
                   'failure positions are few and swept: k in 0..2 for embedded applications and constructor lists); histories are sampled.')
     level_note = 'Trusted: the model routing tables and the dispatch model shared with C06.'
-    required_probes = ('strict-application', 'context-rendered-by-factory', 'embed-with-rebind-render', 'failed-add-unchanged', 'sub-kth-fails-unchanged', 'ctor-failed', 'route-bound-twice', 'embedded-then-child-changed',
+    forbidden_probes = ('failing-op-succeeded',)
+    required_probes = ('one-route-in-two-applications-with-equal-typed-stacks', 'sub-kth-fails-with-other-exception-type', 'strict-application', 'context-rendered-by-factory', 'embed-with-rebind-render', 'failed-add-unchanged', 'sub-kth-fails-unchanged', 'ctor-failed', 'route-bound-twice', 'embedded-then-child-changed',
                        'embed-depth-2', 'add-at-index')
 
     # ---- generation --------------------------------------------------------
@@ -116,7 +169,8 @@ class C11(Check):
         napps = c.randint(2, 4)
         strict_run = c.random() < 0.25
         apps = [{'mode': c.choice(['strict', 'strict', 'redirect'] if strict_run else ['redirect', 'redirect', 'rewrite']),
-                 'nr_mw': c.random() < 0.4, 'factory': c.random() < 0.5} for _ in range(napps)]
+                 'nr_mw': c.random() < 0.4, 'factory': c.random() < 0.5, 'stamp': c.random() < 0.6, 'cyc_mw': c.random() < 0.5}
+                for _ in range(napps)]
         pats = R.STRICT_OK if strict_run else sorted(R.CAT)      # strict mode: patterns with a single spelling per match
         routes = []
         for k in range(c.randint(3, 8)):
@@ -139,7 +193,7 @@ class C11(Check):
                 op = {'op': 'new_app', 'app': i, 'entries': [entry() for _ in range(rng.randint(0, 3))]}
                 if frng.random() < 0.25:
                     op['fail_at'] = frng.randint(0, len(op['entries']))
-                    op['fail_kind'] = frng.choice(FAIL_KINDS[:8])
+                    op['fail_kind'] = frng.choice(FAIL_KINDS[:N_CTOR_KINDS])
                 else:
                     live.add(i)
                 ops.append(op)
@@ -184,13 +238,27 @@ class C11(Check):
             return ('/zz',)
         if kind == 'route-reserved-resource':
             return Route('/zz', ep, resources={'request': 1})
-        if kind in ('sub-kth-fails', 'sub-mw-dup'):
-            if kind == 'sub-mw-dup' and not pool.apps[i].middlewares:
+        if kind == 'bind-raises':
+            return type('ExplodingRoute%d' % k, (ExplodingRoute,), {'exc_type': BIND_EXCS[k % len(BIND_EXCS)]})('/zz', ep)
+        if kind in ('sub-kth-fails', 'sub-mw-dup', 'sub-kth-cycle', 'sub-kth-raises'):
+            if kind == 'sub-mw-dup' and not self.cfg_of(pool, i).get('nr_mw'):
                 kind = 'sub-kth-fails'
+            if kind == 'sub-kth-cycle' and not self.cfg_of(pool, i).get('cyc_mw'):
+                kind = 'sub-kth-raises'
+            if kind == 'sub-kth-raises' and not self.cfg_of(pool, i).get('factory'):
+                kind = 'sub-kth-cycle' if self.cfg_of(pool, i).get('cyc_mw') else 'sub-kth-fails'
             rts = []
             for n, e in enumerate(entries):
                 if n == k and kind == 'sub-kth-fails':
                     rts.append(('/<%s>' % anyres, ep))       # URL binding named like a resource of the parent
+                elif n == k and kind == 'sub-kth-cycle':
+                    # fine inside the child; a dependency cycle (RuntimeError) with the parent's application-level CycX
+                    rts.append(Route('/zz%d' % n, ep, middlewares=[CycY()]))
+                elif n == k and kind == 'sub-kth-raises':
+                    # fine inside the child (which has no render factory); the PARENT's factory is asked for the renderer
+                    # when the route is bound again, and fails with an exception type of the application's choosing
+                    xn = sorted(R.FACTORY_EXCS)[(k + len(entries[0]['tag'])) % len(R.FACTORY_EXCS)]
+                    rts.append(Route('/zz%d' % n, R.make_endpoint('never', 'ctx'), 'bad-template:' + xn))
                 elif n == k:
                     rts.append(Route('/zz%d' % n, ep, middlewares=[NonReorderable()]))   # parent has that unique type already
                 else:
@@ -199,6 +267,15 @@ class C11(Check):
             inner = Application(rts)
             return SubApplication('/inner', inner) if k % 2 else ('/inner', inner)
         raise InvalidPlan('unknown failure kind %r' % kind)
+
+    @staticmethod
+    def cfg_of(pool, i):
+        return pool.cfg['apps'][i]
+
+    @staticmethod
+    def app_mws(acfg, i):
+        return (([NonReorderable()] if acfg.get('nr_mw') else []) + ([StampMW('S%d' % i)] if acfg.get('stamp') else [])
+                + ([CycX()] if acfg.get('cyc_mw') else []))
 
     # ---- execution ---------------------------------------------------------
     def execute(self, plan):
@@ -228,7 +305,7 @@ class C11(Check):
                     label = 'new_app_fail:%s@%d' % (op['fail_kind'], op['fail_at'])
                 try:
                     app = Application(rts, resources=pool.app_resources(i), slash_mode=pool.mode[i],
-                                      middlewares=[NonReorderable()] if cfg['apps'][i].get('nr_mw') else [],
+                                      middlewares=self.app_mws(cfg['apps'][i], i),
                                       render_factory=R.make_render_factory('F%d' % i) if cfg['apps'][i].get('factory') else None)
                 except Exception as e:
                     if 'fail_at' not in op:
@@ -239,7 +316,7 @@ class C11(Check):
                     del pool.res[i], pool.mode[i]
                 else:
                     if 'fail_at' in op:
-                        res.probe('failing-op-succeeded')
+                        res.probe('failing-op-succeeded')      # scenario self-check; not C11's business in itself
                         break
                     pool.apps[i], pool.model[i] = app, model
             elif kind in ('add_route', 'add_tuple'):
@@ -300,10 +377,12 @@ class C11(Check):
                 except Exception:
                     res.fire('op_fails_midway:%s' % op['kind'])
                     res.probe('sub-kth-fails-unchanged' if op['kind'].startswith('sub-') else 'failed-add-unchanged')
+                    if op['kind'] in ('sub-kth-cycle', 'sub-kth-raises') and op['k'] > 0:
+                        res.probe('sub-kth-fails-with-other-exception-type')
                     res.nontrivial = True
                 else:
+                    # not C11's business in itself (scenario self-check); the table must still be what it was -- checked below
                     res.probe('failing-op-succeeded')
-                    break
             elif kind == 'req':
                 pass
             else:
@@ -379,6 +458,11 @@ class C11(Check):
             elif e['out'] == 'ctx' and got['rendered_by'] != e['render']:
                 bad = ('rendered-by-wrong-factory', 'rendered by %r, expected the renderer of %r (bound through applications %r)'
                        % (got['rendered_by'], e['render'], e['chain']))
+            if bad is None and got['status'] == 200 and got.get('stamp') != e.get('stamp'):
+                bad = ('passed-through-wrong-middleware-instance', 'response marked by %r, expected the middleware instance %r of the '
+                       'outermost application it is bound through (%r)' % (got.get('stamp'), e.get('stamp'), e['chain']))
+            if bad is None and got['status'] == 200 and e.get('stamp') and len([1 for m in pool.model.values() for x in m if x['tag'] == e['tag']]) > 1:
+                res.probe('one-route-in-two-applications-with-equal-typed-stacks')
             if e['out'] == 'ctx' and bad is None:
                 res.probe('context-rendered-by-factory')
         if bad:
